@@ -33,7 +33,10 @@ Deviations from DESIGN / weaker readings chosen on purpose:
    well as the body placeholder.
  * generated placeholders are p:sp elements only (the corpus has no p:pic / p:graphicFrame layout placeholder);
    19 "schema types" in DESIGN is 16 in pml.xsd; 'type absent' is enumerated as a 17th value.
- * triples (thorough) use vectors of orient / idx / xfrm instead of the full cross product (closed form below).
+ * the cross product is reduced for pairs (quick: 4 idx vectors (a,a),(a,1),(1,1),(10,1), sz absent, template master;
+   thorough: idx^2 in full, plus sz (half,quarter) on the bare master for the 4 idx vectors) and for triples (thorough:
+   17^3 types x 2 orient vectors x 3 idx vectors x 2 xfrm vectors); singles are the full product. The closed forms are
+   asserted against the number of evaluations (coverage.spaces).
  * batching: up to 11 generated populations share one deck (one per layout of the template) to amortise open /
    save / re-open; after an add_slide that raises, the deck is discarded and re-opened. Replay uses a deck with
    the single population; the per-case verdict does not depend on the neighbours (asserted in the self-check).
@@ -220,7 +223,7 @@ def _work_corpus(part, chunk):
                 part.count("corpus_dup_idx_placeholders")
         _report(part, fails, "corpus %s master %d layout %d" % (rel, mi, li),
                 {"kind": "corpus", "deck": rel, "master": mi, "layout": li, "repeat": repeat})
-        if li == 0 and mi == 0 and rel.endswith(("default.pptx", "test.pptx")):
+        if li == 1 and mi == 0 and rel.endswith("default.pptx"):
             part.sample({"part": "A", "deck": rel, "layout": li, "expected": [L.key4(exp.phs[i]) for i in exp.clone],
                          "geometry": [exp.eff[i] for i in exp.clone]})
 
@@ -336,6 +339,9 @@ def _work_gen(part, chunk):
                     part.count("dup_idx_positional_mismatch")
             for i in exp.clone:
                 part.outcome("geometry_source", "own-xfrm" if exp.phs[i]["has_xfrm"] else ("master" if any(v is not None for v in exp.eff[i]) else "none"))
+            if pop in SAMPLE_POPS and master == "template":
+                part.sample({"part": "B", "population": pop, "master": master, "expected": [L.key4(exp.phs[i]) for i in exp.clone],
+                             "geometry": [exp.eff[i] for i in exp.clone], "failures": [f.sig() for f in fails]})
             if fails:
                 _attribute(pop, master, fails)
                 seen, uniq = set(), []
@@ -347,9 +353,18 @@ def _work_gen(part, chunk):
                 _report(part, fails, "generated layout %r master=%s" % (pop, master), {"kind": "gen", "pop": pop, "master": master})
 
 
+SAMPLE_POPS = [
+    [["body", "vert", 1, False, "half"]],
+    [["title", None, None, False, None], ["pic", None, 1, True, None]],
+    [["ctrTitle", "vert", 1, False, None], ["dt", None, 1, True, None]],
+]
+
+
 def probe_state_after_raise(pop, master):
     """What the presentation looks like after add_slide raised (C02 territory; reported, not judged here)."""
+    import warnings
     from mc.oracles import opc_ref
+    warnings.simplefilter("ignore", UserWarning)  # zipfile warns about the duplicate member the library then writes
     blob, _ = G.build_deck([pop], master)
     prs = F.open_prs(blob)
     try:
